@@ -1,5 +1,4 @@
-import Proofs.C15.Sound
-import Model.C15.Satisfy
+import Proofs.C15.ElemSize
 /-!
 C15 — what the (modelled) satisfier returns is one of the stacks the satisfaction tables list:
 `satisfy ⊆ Sat` for the covered fragment set.
@@ -24,34 +23,6 @@ def zeroOK (E : EvalEnv) : Ms → Bool
   | .andor x y z => zeroOK E x && zeroOK E y && zeroOK E z
   | _ => true
 
-theorem both_some {a b : Input} {w : List Bytes} (h : (both a b).stack = some w) :
-    ∃ s t, a.stack = some s ∧ b.stack = some t ∧ w = s ++ t := by
-  unfold both at h
-  cases ha : a.stack with
-  | none => simp [ha, noWitness] at h
-  | some s =>
-    cases hb : b.stack with
-    | none => simp [ha, hb, noWitness] at h
-    | some t => simp [ha, hb] at h; exact ⟨s, t, rfl, rfl, h.symm⟩
-
-theorem better_some {a b : Input} {w : List Bytes} (h : (better a b).stack = some w) :
-    a.stack = some w ∨ b.stack = some w := by
-  unfold better at h
-  repeat' split at h
-  all_goals first | exact Or.inl h | exact Or.inr h | (simp at h; first | exact Or.inl h | exact Or.inr h)
-
-@[simp] theorem overcomplete_stack' (i : Input) : (overcomplete i).stack = i.stack := rfl
-@[simp] theorem nonCanon_stack' (i : Input) : (nonCanon i).stack = i.stack := rfl
-
-theorem preimageOf_len {env : SatEnv} {h : HashKind} {d p : Bytes} (hp : preimageOf env h d = some p) :
-    p.length = 32 := by
-  unfold preimageOf at hp
-  split at hp
-  · split at hp
-    · cases hp; assumption
-    · cases hp
-  · cases hp
-
 section
 variable (E : EvalEnv) (ctx : Ctx) (env : SatEnv)
 
@@ -60,15 +31,15 @@ def SatInv (n : Ms) : Prop :=
   (∀ w, (inputs ctx env n).sat.stack = some w → Sat E n w.reverse) ∧
   (∀ w, (inputs ctx env n).dsat.stack = some w → Dsat E n w.reverse)
 
-theorem satInv (hE : EnvOK E ctx env) : ∀ (n : Ms), inS1 n = true → zeroOK E n = true →
-    SatInv E ctx env n
-  | .f0, _, _ => by
+theorem satInv (hE : EnvOK E ctx env) (hS : SigsSmall ctx env) : ∀ (n : Ms), inS1 n = true →
+    shaped ctx n = true → zeroOK E n = true → SatInv E ctx env n
+  | .f0, _, _, _ => by
     constructor <;> intro w h <;> simp [inputs, noWitness, noPushes] at h
     subst h; exact .f0
-  | .f1, _, _ => by
+  | .f1, _, _, _ => by
     constructor <;> intro w h <;> simp [inputs, noWitness, noPushes] at h
     subst h; exact .f1
-  | .pk_k k, _, _ => by
+  | .pk_k k, _, _, _ => by
     constructor
     · intro w h
       simp only [inputs, keyInput, sigInput] at h
@@ -81,7 +52,7 @@ theorem satInv (hE : EnvOK E ctx env) : ∀ (n : Ms), inS1 n = true → zeroOK E
     · intro w h
       simp [inputs, keyInput, zeroPush, element] at h
       subst h; exact .pk_k k
-  | .pk_h k, _, _ => by
+  | .pk_h k, _, _, _ => by
     constructor
     · intro w h
       simp only [inputs, keyInput, sigInput] at h
@@ -94,7 +65,7 @@ theorem satInv (hE : EnvOK E ctx env) : ∀ (n : Ms), inS1 n = true → zeroOK E
     · intro w h
       simp [inputs, keyInput, both, zeroPush, element] at h
       subst h; exact .pk_h k
-  | .hash hk d, _, hz => by
+  | .hash hk d, _, _, hz => by
     simp only [zeroOK, bne_iff_ne, ne_eq] at hz
     constructor
     · intro w h
@@ -109,7 +80,7 @@ theorem satInv (hE : EnvOK E ctx env) : ∀ (n : Ms), inS1 n = true → zeroOK E
       simp [inputs, zero32Push] at h
       subst h
       exact .hash hk d _ (by simp) hz
-  | .older n, _, _ => by
+  | .older n, _, _, _ => by
     constructor
     · intro w h
       simp only [inputs] at h
@@ -117,7 +88,7 @@ theorem satInv (hE : EnvOK E ctx env) : ∀ (n : Ms), inS1 n = true → zeroOK E
       | false => simp [hm, noWitness] at h
       | true => simp [hm, noPushes] at h; subst h; exact .older n (hE.2.2.1 n hm)
     · intro w h; simp [inputs, noWitness] at h
-  | .after n, _, _ => by
+  | .after n, _, _, _ => by
     constructor
     · intro w h
       simp only [inputs] at h
@@ -125,11 +96,12 @@ theorem satInv (hE : EnvOK E ctx env) : ∀ (n : Ms), inS1 n = true → zeroOK E
       | false => simp [hm, noWitness] at h
       | true => simp [hm, noPushes] at h; subst h; exact .after n (hE.2.2.2 n hm)
     · intro w h; simp [inputs, noWitness] at h
-  | .wrap w x, hin, hz => by
+  | .wrap w x, hin, hsh, hz => by
     simp only [inS1, Bool.and_eq_true, Bool.or_eq_true, beq_iff_eq] at hin
     simp only [zeroOK] at hz
-    obtain ⟨ihs, ihd⟩ := satInv hE x hin.2 hz
-    rcases hin.1 with ((((rfl | rfl) | rfl) | rfl) | rfl) | rfl
+    simp only [shaped] at hsh
+    obtain ⟨ihs, ihd⟩ := satInv hE hS x hin.2 hsh hz
+    rcases hin.1 with (((((rfl | rfl) | rfl) | rfl) | rfl) | rfl) | rfl
     · exact ⟨fun v h => .wrap _ _ _ (by decide) (by decide) (ihs v (by simpa [inputs, wrapperInput] using h)),
         fun v h => .wrap_c _ _ (ihd v (by simpa [inputs, wrapperInput] using h))⟩
     · exact ⟨fun v h => .wrap _ _ _ (by decide) (by decide) (ihs v (by simpa [inputs, wrapperInput] using h)),
@@ -150,11 +122,22 @@ theorem satInv (hE : EnvOK E ctx env) : ∀ (n : Ms), inS1 n = true → zeroOK E
       · intro v h
         simp [inputs, wrapperInput, zeroPush, element] at h
         subst h; exact .wrap_d x
-  | .bin b x y, hin, hz => by
+    · constructor
+      · intro v h
+        simp only [inputs, wrapperInput] at h
+        refine .wrap_j x _ (ihs v h) ?_
+        intro e he
+        have := (small_s1 ctx env hS x hin.2 hsh).1 v h e (List.mem_reverse.mp he)
+        omega
+      · intro v h
+        simp [inputs, wrapperInput, zeroPush, element] at h
+        subst h; exact .wrap_j x
+  | .bin b x y, hin, hsh, hz => by
     simp only [inS1, Bool.and_eq_true, Bool.or_eq_true, beq_iff_eq] at hin
     simp only [zeroOK, Bool.and_eq_true] at hz
-    obtain ⟨xs, xd⟩ := satInv hE x hin.1.2 hz.1
-    obtain ⟨ys, yd⟩ := satInv hE y hin.2 hz.2
+    simp only [shaped, Bool.and_eq_true] at hsh
+    obtain ⟨xs, xd⟩ := satInv hE hS x hin.1.2 hsh.1 hz.1
+    obtain ⟨ys, yd⟩ := satInv hE hS y hin.2 hsh.2 hz.2
     rcases hin.1.1 with ((((rfl | rfl) | rfl) | rfl) | rfl) | rfl
     · -- and_v
       constructor
@@ -243,12 +226,13 @@ theorem satInv (hE : EnvOK E ctx env) : ∀ (n : Ms), inS1 n = true → zeroOK E
         simp only [inputs, binInput] at h
         obtain ⟨s, t, hs, ht, rfl⟩ := both_some h
         simpa using Dsat.or_d x y _ _ (xd t ht) (yd s hs)
-  | .andor x y z, hin, hz => by
+  | .andor x y z, hin, hsh, hz => by
     simp only [inS1, Bool.and_eq_true] at hin
     simp only [zeroOK, Bool.and_eq_true] at hz
-    obtain ⟨xs, xd⟩ := satInv hE x hin.1.1 hz.1.1
-    obtain ⟨ys, yd⟩ := satInv hE y hin.1.2 hz.1.2
-    obtain ⟨zs, zd⟩ := satInv hE z hin.2 hz.2
+    simp only [shaped, Bool.and_eq_true] at hsh
+    obtain ⟨xs, xd⟩ := satInv hE hS x hin.1.1 hsh.1.1 hz.1.1
+    obtain ⟨ys, yd⟩ := satInv hE hS y hin.1.2 hsh.1.2 hz.1.2
+    obtain ⟨zs, zd⟩ := satInv hE hS z hin.2 hsh.2 hz.2
     constructor
     · intro v h
       simp only [inputs, andorInput] at h
@@ -265,11 +249,11 @@ theorem satInv (hE : EnvOK E ctx env) : ∀ (n : Ms), inS1 n = true → zeroOK E
         simpa using Dsat.andor_y x y z _ _ (xs t ht) (yd s hs)
       · obtain ⟨s, t, hs, ht, rfl⟩ := both_some h
         simpa using Dsat.andor x y z _ _ (xd t ht) (zd s hs)
-  | .multi _ _, h, _ | .multi_a _ _, h, _ | .thresh _ _ _, h, _ => by simp [inS1] at h
+  | .multi _ _, h, _, _ | .multi_a _ _, h, _, _ | .thresh _ _ _, h, _, _ => by simp [inS1] at h
 
 /-- `satisfy ⊆ Sat`: the witness the satisfier returns, read top first, is a listed satisfaction. -/
-theorem satisfy_in_Sat (hE : EnvOK E ctx env) (n : Ms) (hin : inS1 n = true)
-    (hz : zeroOK E n = true) (w : List Bytes) (h : satisfy ctx env n = .ok w) :
+theorem satisfy_in_Sat (hE : EnvOK E ctx env) (hS : SigsSmall ctx env) (n : Ms)
+    (hin : inS1 n = true) (hsh : shaped ctx n = true) (hz : zeroOK E n = true) (w : List Bytes) (h : satisfy ctx env n = .ok w) :
     Sat E n w.reverse := by
   unfold satisfy at h
   cases hs : (inputs ctx env n).sat.stack with
@@ -279,7 +263,7 @@ theorem satisfy_in_Sat (hE : EnvOK E ctx env) (n : Ms) (hin : inS1 n = true)
     split at h
     · cases h
     · cases h
-      exact (satInv E ctx env hE n hin hz).1 _ hs
+      exact (satInv E ctx env hE hS n hin hsh hz).1 _ hs
 
 end
 
